@@ -189,13 +189,17 @@ impl Ctx {
         // the first few, then sparser and sparser
         let l = self.leaves;
         if self.samples.len() < MAX_SAMPLES && (l < 3 || (l % 997 == (self.seed % 997)) ) {
-            self.samples.push(v());
+            let x = v();
+            // (samples, like violation records, must survive the trip through JSON text)
+            if depth_of(&x) <= 100 {
+                self.samples.push(x);
+            }
         }
     }
 
     /// keep this sample regardless of the thinning rule (engine-level samples)
     pub fn sample_force(&mut self, v: Value) {
-        if self.samples.len() < MAX_SAMPLES + 4 {
+        if self.samples.len() < MAX_SAMPLES + 4 && depth_of(&v) <= 100 {
             self.samples.insert(0, v);
         }
     }
@@ -206,6 +210,16 @@ impl Ctx {
         }
         self.violation_count += 1;
         if self.violations.len() < MAX_VIOLATIONS_KEPT {
+            // a record must survive the trip through JSON text (worker result file, replay file): serde_json
+            // reads at most 128 levels, so a deeply nested case is carried as text
+            let case = if depth_of(&case) > 100 {
+                match (case.get("rule"), case.get("data")) {
+                    (Some(r), Some(d)) => json!({"rule_text": r.to_string(), "data_text": d.to_string(), "note": "nested too deeply to embed"}),
+                    _ => json!({"case_text": case.to_string(), "note": "nested too deeply to embed"}),
+                }
+            } else {
+                case
+            };
             self.violations.push(Violation { sub: sub.to_string(), case, expected, actual, site });
         }
     }
@@ -432,4 +446,20 @@ pub fn dominated(small: &[String], big: &[String]) -> bool {
         }
     }
     true
+}
+
+/// Nesting depth of a JSON value (scalars 0).
+pub fn depth_of(v: &Value) -> usize {
+    // iterative: the values measured here are the ones too deep for recursion-limited code
+    let mut max = 0;
+    let mut stack: Vec<(&Value, usize)> = vec![(v, 0)];
+    while let Some((x, d)) = stack.pop() {
+        max = max.max(d);
+        match x {
+            Value::Array(a) => stack.extend(a.iter().map(|y| (y, d + 1))),
+            Value::Object(m) => stack.extend(m.values().map(|y| (y, d + 1))),
+            _ => {}
+        }
+    }
+    max
 }
